@@ -54,6 +54,14 @@ type LVal struct {
 	Path []int // field indices into nested struct values
 	Root types.Type
 	Typ  types.Type // type of the location after Path
+	G    *guard     // lock that must be held to touch this location (C20)
+}
+
+// guard: a lock-state cell (heap, key) and a description.
+type guard struct {
+	heap string
+	key  Term
+	what string
 }
 
 const (
@@ -72,6 +80,7 @@ type Val struct {
 	Go     types.Type
 	Dyn    types.Type // statically known dynamic type of an interface value
 	LVSelf *LVal      // the location this value was read from (for modifies through captured variables)
+	G      *guard     // the value (map / slice) was read from a guarded field
 }
 
 type Closure struct {
@@ -101,6 +110,7 @@ type Unit struct {
 	nepoch      int
 	epochJoin   map[int][]epochArm
 	rec         map[string]bool // when non-nil: heap names read (footprint computation)
+	freshRefs   map[string]bool // references allocated by the unit itself
 	axHeaps     map[string]Term // when non-nil: axiom mode, heap name -> bound variable
 	reveals     map[string]bool
 	revealed    map[string]bool // definitional axioms already emitted (function|heap tuple)
